@@ -19,7 +19,9 @@ CLAIMED: dict[str, tuple[str, str, str, str]] = {
             "replayed into the real code through a schedule-controlled process pool and compared with the "
             "sequential run on all violation fields; real ProcessPoolExecutor runs for K=1..16 and CLI "
             "--parallel runs are recorded with the H2 event tap; every execution is validated by TLC "
-            "against ParallelTrace.tla (layer A verdict + layer B drift).",
+            "against ParallelTrace.tla (layer A verdict + layer B drift). The CLI stage passes one directory, a file "
+            "list, several directory arguments and files plus directories (a CLI invocation is a sequence of runs "
+            "in either mode); a run whose tap events cannot be bound to the model is judged on its results alone.",
             "Bounded: N<=40 files, K<=16; controlled pool replaces ProcessPoolExecutor/as_completed only; "
             "real-pool schedules are sampled; trusted: TLC, the H2 tap, the projection in checks/C07.py.",
             TECH),
@@ -41,7 +43,11 @@ CLAIMED: dict[str, tuple[str, str, str, str]] = {
             "executed through all 20 linter commands and through Linter.lint on projects covering all probe "
             "kinds, two layouts, a per-language-override config and explicit --config/config_file variants; "
             "TLC (AgreementTrace.tla) judges every record with the spec's operators, cross-checked against the "
-            "Python pre-check. Orchestrator.tla's UnionLaw invariant is model-checked as part of C08.",
+            "Python pre-check. Orchestrator.tla's UnionLaw invariant is model-checked as part of C08. spec/Walker.tla "
+            "models the directory walker against repository ignore patterns (a pattern may match a directory path "
+            "and none of its files; non-vacuity run with directory pruning) and its 57 pattern sets are replayed as "
+            ".thailintignore files on a nested layout; further projects share all identifiers between files (a list "
+            "and a string accumulator of the same name in neighbouring files).",
             "6-file projects; per-file rule = all rules but dry.*/stringly-typed.*; `dry --config <file without "
             "dry section>` excluded (overlay-vs-replace semantics undocumented).",
             TECH),
@@ -51,7 +57,7 @@ CLAIMED: dict[str, tuple[str, str, str, str]] = {
             "B against A exhaustively for all ignore-pattern sets of size <=2 over 12 documented pattern forms x "
             "3 targets x recursive flag on a 174-file universe (every always-excluded name at depth 1 and 2, "
             "compiled artefacts, near-miss names) with a non-vacuity run of the pinned commit's prefix fallback; "
-            "all 402 cases are executed with the real CLI per carrier (.thailintignore, yaml, json, pyproject), "
+            "all cases are executed with the real CLI per carrier (.thailintignore, yaml, json, pyproject), "
             "with must-skip files also named explicitly; lint decisions recorded by the H2 tap and reported "
             "files are judged by TLC (CollectTrace.tla: Visited / Missed / NotReported + layer-B drift).",
             "Names are atoms in TLA+ (prefix relation tabulated); pattern forms limited to the documented ones; "
@@ -64,7 +70,8 @@ CLAIMED: dict[str, tuple[str, str, str, str]] = {
             "and sarif as real processes, including hostile inputs (non-ASCII identifiers, file names with "
             "quotes, backslash, newline and an invalid UTF-8 byte, several identical findings on one line); "
             "RunTrace.tla judges each triple: exit code law, equal bags across renderings, JSON total, "
-            "well-formedness flags.",
+            "well-formedness flags. Non-mapping config documents (YAML list / scalar, JSON array) are fault classes; the "
+            "global --verbose flag is a dimension of the model (same outcome required).",
             "UTF-8/JSON decoding and the structural SARIF checks are computed by the harness and enter the "
             "trace as booleans; SARIF is not validated against the official schema (not available offline).",
             TECH),
@@ -76,7 +83,9 @@ CLAIMED: dict[str, tuple[str, str, str, str]] = {
             "case is executed for five graded options (nesting py+ts, srp, collection-pipeline, dry); the "
             "effective value is measured black-box against reference runs; enabled:false for all 16 documented "
             "sections x spelling x 5 carriers, 10 switches, monotone sweeps, invalid values and unparsable "
-            "files per carrier are further record kinds; ConfigTrace.tla re-evaluates EffectiveA per record.",
+            "files per carrier are further record kinds; ConfigTrace.tla re-evaluates EffectiveA per record. A file of "
+            "another language carrying its own per-language override is linted before / after the probe in the same run "
+            "(`companion`; non-vacuity run with one parsed section object shared by the whole run).",
             "Precedence asserted only when every present carrier sets the option; effective value identified "
             "by equality with a reference run (references must be pairwise distinct: TakesEffect).",
             TECH),
@@ -99,15 +108,16 @@ CLAIMED: dict[str, tuple[str, str, str, str]] = {
             "with a Python mirror used only for diagnosis keys. Comma lists (`ignore[a,b]`) are two further "
             "spellings for same-line directives; every base is additionally edited in place through an alternating "
             "sequence of file-level and line-level directives and linted again by the same process / one held "
-            "Linter, so nothing remembered per file may go stale.",
+            "Linter, so nothing remembered per file may go stale. A second directive naming ANOTHER rule is stacked on the "
+            "first (enclosing block, line above, file header): Expected2 of Ignore.tla, evaluated in final coordinates.",
             "Comment style follows the file's language; lazy-ignores findings excluded; file-level findings do "
             "not shift; line-scoped forms are not generated for file-level linters nor inside DRY blocks; "
             "`prefix.*` for rule ids without a sub-id carries no verdict.",
             TECH),
     "C15": ("DESIGN.md §5 C15",
             "spec/Languages.tla holds the extension/shebang -> language function, command -> linter ownership "
-            "and linter -> language support tables (meta-invariants checked by TLC) and enumerates all 1 440 "
-            "(extension spelling, shebang, content language, command) cases; each is one fresh-process CLI run "
+            "and linter -> language support tables (meta-invariants checked by TLC) and enumerates all "
+            "(extension spelling incl. multi-suffix names, shebang form, content language, command) cases; each is one fresh-process CLI run "
             "under four settings of the other linters' sections on a project that also contains an "
             "extensionless python-shebang script and an extensionless non-script; LanguagesTrace.tla judges "
             "ForeignRule / WrongLanguage / UnknownTypeAnalysed / ExtensionCase / OtherSectionsMatter.",
@@ -123,19 +133,22 @@ CLAIMED: dict[str, tuple[str, str, str, str]] = {
             "linted before/after and EditsTrace.tla computes Expected(base, edits) (Lost / Gained / WrongShift / "
             "CountChanged); a Python mirror is used for diagnosis keys only and cross-checked. Every base is also edited "
             "in place and re-linted by one process / one held Linter, once as is and once with an inline directive "
-            "in the file.",
+            "in the file. As single edits, a blank / comment line is also inserted at EVERY line boundary of every base "
+            "(bases include if/elif/else and try/except/finally chains on the nesting limit and a script ending in a "
+            "`__main__` block).",
             "For renaming edits the findings of stringly-typed and dry (which look at names / statement text) are "
             "left out; probe files contain no multi-line strings; file-level findings "
             "do not shift; header-sensitive linters get no insertion at the top.",
             TECH),
     "C11": ("DESIGN.md §5 C11",
-            "spec/Robust.tla enumerates fault sequences (32 fault operations x 5 seed kinds, length <=2 quick / "
+            "spec/Robust.tla enumerates fault sequences (35 fault operations x 5 seed kinds, length <=2 quick / "
             "<=3 thorough); the harness instantiates each with bytes/positions drawn from VERIF_SEED, places the "
             "damaged file among healthy siblings and runs Linter.lint (all rules, H1 failure tap on every "
             "swallowed exception) plus rotating CLI commands; RobustTrace.tla judges Hang / Crash / RuleFailed / "
             "SiblingsChanged per run. A slow-parse stage appends a 10 000-character token flood to a healthy TS/JS file "
             "(each tree-sitter parse then takes about a second): the findings of its healthy part and of the healthy "
-            "file linted after it must survive (AnalysisDropped).",
+            "file linted after it must survive (AnalysisDropped). Every damaged file is also linted first / in the middle of "
+            "an explicit file list, followed by a bracket-free healthy file of its language.",
             "Fault enumeration, not exhaustive model checking of byte strings: concrete bytes are pseudo-random "
             "(recorded in the replay); hang = no result within 300 s; wall-clock dependent faults (parser "
             "timeouts) are only reachable in the thorough tier's larger blow-ups.",
